@@ -165,7 +165,7 @@ def main(tier, seed, replay=None):
     warnings.simplefilter("ignore")
     import pyshacl
     rep = F.Report(PROP, tier, seed)
-    ob = F.coq_build(["Props/C16.v"], translators=["t3", "t4"])
+    ob = F.coq_build(["Props/C16.v"], translators=["t3", "t4", "t5"])
     rng = F.rng_for(seed, PROP)
     big = tier == "thorough"
     known = {k.get("id") for k in F.load_known_findings(PROP)}
@@ -275,6 +275,14 @@ def main(tier, seed, replay=None):
             elif not ch.startswith("ok:"):
                 raw.append({"what": "a data graph with unusual literal values made validate() fail (%s: %s) instead of reporting" % (ch, str(e)[:200]), "case": nm, "data": odd_data, "options": opts})
 
+    # ---- Tie A for the list check: the real ShapesGraph constructor against the interpreter of the generated program
+    from .. import listcheck as LC
+    lc_stats, lc_fails, lc_errors = LC.run(F.rng_for(seed, PROP + "/lists"), 1500 if big else 150)
+    for d_ in lc_fails[:5]:
+        raw.append(d_)
+    if ob.ok:
+        errors = list(errors) + list(lc_errors)
+
     # ---- CLI: the same causes through `python -m pyshacl`
     d = tempfile.mkdtemp(prefix="c16_", dir="/var/tmp")
     cli_bad, cli_runs = [], 0
@@ -327,8 +335,8 @@ def main(tier, seed, replay=None):
         "distinct_nontrivial": len(api_cases) + cli_runs,
         "rule": "(1) Tie A: cli.main() run in-process with validate() replaced by a function raising each of 21 exception classes (documented, builtin, subclasses defined on the spot) or returning conforming / non-conforming / in-band failure results: real exit status and whether the report file was written = exit_status / report_written of the generated table; "
                 "(2) API: %d enumerated ill-formed shapes graphs (wrong node kinds/datatypes for every core parameter, malformed lists and paths, bad regex and flags, broken/misplaced SPARQL, dangling references, malformed rules/functions/targets/expressions) x options, plus %d randomly damaged well-formed shapes graphs (one SHACL triple's value replaced by a literal/IRI/blank node/list/duplicate/self-loop): outcome must be a result tuple, a ValidationFailure or a documented exception class; "
-                "(3) CLI: a sample of the same causes through `python -m pyshacl` with -f human/turtle/json-ld/table: exit status = 0/1/2/3 as the API outcome dictates, 0 and 1 only with output written" % (len(api_cases), n_mut),
-        "distribution": {"api_channels": channels, "cli_runs": cli_runs, "cli_wrong_status": len(cli_bad), "raw_exceptions_not_listed": len(raw), "dispatch_cases": len(bodies), "dispatch_disagreements": len(failed)},
+                "(2b) Tie A for the list check: random rest maps (proper lists, shared tails, rings, rho shapes, self loops) as rdf:rest triples of a shapes graph: the ShapesGraph constructor's decision = the interpreter's run of the program generated from _check_rdf_lists = 'every chain ends', and the same in two other insertion orders; (3) CLI: a sample of the same causes through `python -m pyshacl` with -f human/turtle/json-ld/table: exit status = 0/1/2/3 as the API outcome dictates, 0 and 1 only with output written" % (len(api_cases), n_mut),
+        "distribution": {"api_channels": channels, "cli_runs": cli_runs, "cli_wrong_status": len(cli_bad), "raw_exceptions_not_listed": len(raw), "dispatch_cases": len(bodies), "dispatch_disagreements": len(failed), **lc_stats},
         "samples": meta[:2],
         "exhaustive": False,
     })
